@@ -76,6 +76,9 @@ var c09Net = gopacket.NewFlow(layers.EndpointIPv4, []byte{1, 2, 3, 4}, []byte{5,
 
 const c09W = 8
 
+// segment offsets range over 0..c09MaxO and lengths over c09MinL..3
+var c09MaxO, c09MinL = c09W - 1, 0
+
 func c09History(k int, flushes bool, keep bool) {
 	f := &c09Factory{keep: keep}
 	pool := NewStreamPool(f)
@@ -90,8 +93,8 @@ func c09History(k int, flushes bool, keep bool) {
 	midFlush := false // a flush happened before all segments had arrived
 	delivered := make([]bool, c09W+3)
 	for i := 0; i < k; i++ {
-		o := verifInt("o", 0, c09W-1)
-		l := verifInt("l", 0, 3)
+		o := verifInt("o", 0, c09MaxO)
+		l := verifInt("l", c09MinL, 3)
 		tcp := &layers.TCP{Seq: isn + 1 + uint32(o), ACK: true}
 		tcp.Payload = S[o : o+l]
 		for j := 0; j < c09W+3; j++ {
@@ -172,9 +175,12 @@ func c09History(k int, flushes bool, keep bool) {
 	verifReached("history")
 }
 
-func verif_C09_hist2()            { c09History(2, false, false) }
-func verif_C09_hist2_keep()       { c09History(2, false, true) }
-func verif_C09_hist3()            { c09History(3, false, false) }
-func verif_C09_hist2_flush()      { c09History(2, true, false) }
-func verif_C09_hist3_flush()      { c09History(3, true, true) }
-func verif_C09_hist2_flush_keep() { c09History(2, true, true) }
+func verif_C09_hist2()       { c09History(2, false, false) }
+func verif_C09_hist2_keep()  { c09History(2, false, true) }
+func verif_C09_hist3()       { c09History(3, false, false) }
+func verif_C09_hist2_flush() { c09History(2, true, false) }
+func verif_C09_hist3_flush() { c09History(3, true, true) }
+func verif_C09_hist2_flush_keep() {
+	c09MaxO, c09MinL = 5, 1 // offsets 0..5, non-empty segments: keeps the quick tier short
+	c09History(2, true, true)
+}
